@@ -31,7 +31,7 @@ import (
 )
 
 func init() {
-	props["C05"] = func(r *Rec) { runStake(r, "C05"); c05UpgradeFlow(r, "C05"); c05DuplicateConsKey(r, "C05") }
+	props["C05"] = func(r *Rec) { runStake(r, "C05"); c05UpgradeFlow(r, "C05"); c05DuplicateConsKey(r, "C05"); c06RestartWithIdleValidator(r, "C05") }
 	props["C15"] = func(r *Rec) { runStake(r, "C15"); c15DupKeyKeepsDeadline(r) }
 }
 
